@@ -252,10 +252,15 @@ def replay_do_switch(obligation, model, meta):
 
 
 def init_resume(pid):
-    """TDS.init_resume: only the step-size state and the time advance; event index, switch table, storage untouched."""
+    """TDS.init_resume: only the step-size state and the time advance; event index, switch table, storage untouched; the first
+    resumed step ends no later than the next pending event time and no later than tf."""
     def post(old, new, res):
-        return z3.And(new.z('self.system.dae.t') == old.z('self.system.dae.t') + new.z('self.h'),
-                      new.z('self._switch_idx') == old.z('self._switch_idx'))
+        idx, n = old.z('self._switch_idx'), old.z('self.system.n_switches')
+        t1 = new.z('self.system.dae.t')
+        return z3.And(t1 == old.z('self.system.dae.t') + new.z('self.h'),
+                      new.z('self._switch_idx') == old.z('self._switch_idx'),
+                      new.z('self.h') >= 0, t1 <= old.z('self.config.tf'),
+                      z3.Implies(z3.And(idx >= 0, idx < n, old.z('self.system.dae.t') <= st_at(old, idx)), t1 <= st_at(old, idx)))
     return Contract(
         F, 'TDS.init_resume', pid=pid, params={'self': TObj()}, schema=tds_schema(),
         calls={'self.calc_h': spec(returns=TReal(), modifies=['self.h', 'self.deltat', 'self.deltatmin', 'self.deltatmax',
@@ -263,8 +268,14 @@ def init_resume(pid):
                                                                'self.chatter'],
                                    ensures=[lambda old, new, res, a, k: z3.And(
                                        new.z('self.h') >= 0,
-                                       new.z('self.system.dae.t') + new.z('self.h') <= new.z('self.config.tf'))],
-                                   name='TDS.calc_h(resume=True)')},
+                                       new.z('self.system.dae.t') + new.z('self.h') <= new.z('self.config.tf'),
+                                       # clip clause of TDS.calc_h (proved for calc_h itself): no step across the next event
+                                       z3.Implies(z3.And(new.z('self._switch_idx') >= 0,
+                                                         new.z('self._switch_idx') < new.z('self.system.n_switches'),
+                                                         new.z('self.system.dae.t') <= st_at(new, new.z('self._switch_idx'))),
+                                                  new.z('self.system.dae.t') + new.z('self.h') <= st_at(new, new.z('self._switch_idx'))))],
+                                   name='TDS.calc_h(resume=True)'),
+               'self._calc_h_first': spec(returns=TReal(), name='TDS._calc_h_first'), 'max': None, 'min': None},
         ensures=[('time-advanced-by-h-and-event-index-kept', post)],
         modifies=['self.h', 'self.deltat', 'self.deltatmin', 'self.deltatmax', 'self.config.fixt', 'self.busted',
                   'self.err_msg', 'self.chatter', 'self.system.dae.t'],
